@@ -11,6 +11,10 @@
 //!  * a fault that never goes away, placed before the end of the root element, must be reported: the
 //!    reader cannot deliver the rest of the document, so Ok is impossible without swallowing the error.
 //!
+//!  * a reader that fails for good is not asked again without bound: after 100 000 failures at the same
+//!    offset the reader unwinds into the monitor (`fault:unbounded-retry`; a bound in logical steps, so
+//!    the verdict does not depend on the clock).
+//!
 //! `ErrorKind::Interrupted` is only injected one-shot (std and quick-xml legitimately retry it forever).
 
 use std::io::{BufRead, ErrorKind, Read};
@@ -34,6 +38,9 @@ pub const KINDS: [ErrorKind; 8] = [
     ErrorKind::InvalidData,
     ErrorKind::Interrupted,
 ];
+
+pub const RETRY_LIMIT: u32 = 100_000;
+pub const RETRY_MARKER: &str = "XSG-FAULT-RETRY-LIMIT";
 
 pub struct FaultyReader<'a> {
     data: &'a [u8],
@@ -65,6 +72,11 @@ impl<'a> BufRead for FaultyReader<'a> {
     fn fill_buf(&mut self) -> std::io::Result<&[u8]> {
         if self.pos == self.at && (self.persistent || self.fired == 0) {
             self.fired += 1;
+            if self.fired > RETRY_LIMIT {
+                // a logical-step bound, not a wall-clock one: the caller asked the failed reader again
+                // 100 000 times at the same offset; unwinds to the monitor, which reports it
+                panic!("{}", RETRY_MARKER);
+            }
             return Err(std::io::Error::new(self.kind, "injected reader fault"));
         }
         let mut end = (self.pos + self.chunk).min(self.data.len());
@@ -137,6 +149,11 @@ pub fn sweep(texts: &[String], r: &mut Rng, budget: usize, rep: &mut Report, ori
         });
         rep.count("reader faults injected");
         match res {
+            Err(p) if p.contains(RETRY_MARKER) => rep.violation(
+                "fault:unbounded-retry",
+                format!("the call kept asking a reader that fails for good ({:?} at byte {}): {} retries at the same offset without returning", kind, at, RETRY_LIMIT),
+                desc,
+            ),
             Err(p) => rep.violation("fault:panic", format!("panic with a reader fault: {}", p), desc),
             Ok((out, fired)) => {
                 if fired > 0 {
